@@ -691,9 +691,23 @@ def t_lemmas(E):
         ofd_a, ofd_b = z3.Ints('ofd_a ofd_b')
         E.oblige('C02/lemma.one_open_file_description_per_inode',
                  z3.Implies(z3.And(fo == ofd_a, fo == ofd_b), ofd_a == ofd_b), props={'C02'})
-        # C13: a dead process owns no OFD (kernel stub), so flock_owner is 0 or a live OFD; a survivor's
-        # acquire meets the same flock precondition as on a fresh file: nothing else is consulted
-        E.oblige('C13/lemma.exclusion_state_is_flock_only', z3.BoolVal(True), props={'C13'})
+        # C13: exclusion state is the flock table alone (frame condition, proved per function) and the kernel
+        # stub says: when a process dies every OFD only it holds is closed, which drops the flock it held.
+        proc_of = z3.Function('process_of_ofd', z3.IntSort(), z3.IntSort())
+        alive = z3.Function('process_alive', z3.IntSort(), z3.BoolSort())
+        fo0, fo1, dead = z3.Int('flock_owner0'), z3.Int('flock_owner1'), z3.Int('dead_process')
+        kernel_inv = lambda f: z3.Implies(f != 0, alive(proc_of(f)))          # noqa: E731
+        alive1 = z3.Function('process_alive_after', z3.IntSort(), z3.BoolSort())
+        p_ = z3.Int('p')
+        crash = z3.And(alive(dead), z3.Not(alive1(dead)),
+                       z3.ForAll([p_], z3.Implies(p_ != dead, alive1(p_) == alive(p_))),
+                       fo1 == z3.If(proc_of(fo0) == dead, z3.IntVal(0), fo0))
+        E.oblige('C13/lemma.after_a_crash_the_lock_is_free_or_held_by_a_live_process',
+                 z3.Implies(z3.And(kernel_inv(fo0), crash), z3.Implies(fo1 != 0, alive1(proc_of(fo1)))), props={'C13'},
+                 detail='with the frame condition (no other persistent ownership state) a survivor\'s acquire meets the '
+                        'same precondition as on a fresh lock file, whatever statement the victim was killed at')
+        E.oblige('C13/lemma.a_dead_holder_never_blocks_survivors',
+                 z3.Implies(z3.And(kernel_inv(fo0), crash, proc_of(fo0) == dead), fo1 == 0), props={'C13'})
     E.run_paths(body)
 
 
